@@ -270,7 +270,7 @@ def run(ctx):
                  {"ops": ops, "transmissions": sent})
     # ---- (b) handshake under loss
     steps = ["AVERS", "CURCH", "SFILE", "STATU"]
-    scripts = [{}] + [{s: k} for s in steps for k in ((1, 3, 10) if ctx.thorough else (2,))] + [{s: rng.randrange(0, 5) for s in steps} for _ in range(6 if ctx.thorough else 2)]
+    scripts = [{}] + [{s: k} for s in steps for k in ((1, 3, 10) if ctx.thorough else (2,))] + [{steps[ctx.seed % 3]: 10}]      # the whole retry budget but one attempt + [{s: rng.randrange(0, 5) for s in steps} for _ in range(6 if ctx.thorough else 2)]
     for drops in scripts:
         ok, same, iters, seen = handshake(drops)
         ctx.count("handshakes")
